@@ -644,6 +644,13 @@ class World:
             return self.isinstance_(eng, st, args[0], args[1], node)
         if name in ('frozenset', 'set', 'tuple', 'list') and len(args) == 1 and args[0].kind == 'tuple':
             return [Result(st, VTuple(list(args[0].items), name == 'list'))]
+        if name in ('list', 'tuple') and len(args) == 1 and args[0].kind == 'ref' and isinstance(st.node(args[0]), Arr):
+            st = st.copy()
+            n0 = st.node(args[0])
+            return [Result(st, st.alloc(Arr(n0.elem, n0.a, n0.n, name)))]
+        if name in ('set', 'frozenset') and len(args) == 1 and args[0].kind == 'ref' and isinstance(st.node(args[0]), Arr):
+            # only membership is used on such sets in the verified code: the sequence stands for its set of elements
+            return [Result(st, args[0])]
         if name == 'warn':
             self.used.add('warn')
             return [Result(self.log_effect(eng, st, 'warn', args[0]), NONE)]
@@ -799,6 +806,16 @@ class World:
     def arr_method(self, eng, st, recv, n, name, args, kwargs, node):
         if name == 'copy':
             return [Result(st, st.alloc(n.replace()))]
+        if name == 'extend' and n.flavour == 'list' and args[0].kind == 'ref' and isinstance(st.node(args[0]), Arr):
+            other = st.node(args[0])
+            if other.elem != n.elem:
+                raise EngineError('extend with a sequence of another element kind')
+            st = st.copy()
+            k = fresh('k', I)
+            a2 = fresh('extended', n.a.sort())
+            st.assume(z3.ForAll([k], a2[k] == z3.If(k < n.n, n.a[k], other.a[k - n.n]), patterns=[a2[k]]))
+            st.setnode(recv, n.replace(a=a2, n=n.n + other.n))
+            return [Result(st, NONE)]
         raise EngineError('%s:%d: array/list method %s' % (eng.rel, node.lineno, name))
 
     def obj_method(self, eng, st, recv, n, name, args, kwargs, node, starv=None, dstar=None):
